@@ -339,7 +339,24 @@ def t4_eviction(ck):
                        "the evicting write can happen before the scan over all slots is exhausted")
                 modlen = idx[0] == "bin" and idx[1] == "Rem" and idx[3][0] == "call" and idx[3][1].endswith("::len") and any(
                     x == ("field", ("param", 1), "entries") for x in walk(idx[3]))
-                ck.req(modlen, "T4.index", "insert_or_replace", ior.where(), "eviction index %s is not reduced modulo self.entries.len()" % show(idx))
+                # any other form that is within the slot array by construction: gen_range(0..N) / a constant, N = array length
+                if not modlen:
+                    nslots = None
+                    try:
+                        nslots = const_value(("const", None, ck.const(BUCKET + "::BUCKET_SIZE", "T4")))
+                    except Exception:
+                        nslots = None
+                    if not isinstance(nslots, int):
+                        try:
+                            nslots = int(ck.const(BUCKET + "::BUCKET_SIZE", "T4"))
+                        except Exception:
+                            nslots = None
+                    if idx[0] == "call" and idx[1].endswith("::gen_range") and len(idx[2]) == 2 and idx[2][1][0] == "agg" and "Range" in str(idx[2][1][1]):
+                        lo, hi = const_value(idx[2][1][2][0]), const_value(idx[2][1][2][1])
+                        modlen = isinstance(lo, int) and isinstance(hi, int) and nslots is not None and 0 <= lo < hi <= nslots
+                    elif isinstance(const_value(idx), int) and nslots is not None:
+                        modlen = 0 <= const_value(idx) < nslots
+                ck.req(modlen, "T4.index", "insert_or_replace", ior.where(), "eviction index %s is not within the slot array by construction (x %% self.entries.len(), or a range inside 0..BUCKET_SIZE)" % show(idx))
                 ck.sample({"rule": "T4", "eviction_index": show(idx)})
     ck.floor("T4", found, 1, "evicting indexed slot writes")
     # scan paths: a slot that is Some with a different key must `continue` (no write)
@@ -402,7 +419,7 @@ def t5_accounting(ck):
     for b in ws_bodies(prog, ("weechess_engine",)):
         for blk in b.blocks:
             for s in blk["stmts"]:
-                if s["k"] == "assign" and any(isinstance(e, dict) and e.get("f") == "used_slots" for e in s["place"]["p"]):
+                if s["k"] == "assign" and any(isinstance(e, dict) and e.get("f") == "used_slots" and TABLE in e.get("of", TABLE) for e in s["place"]["p"]):
                     writers += 1
                     ck.req(b.name == TABLE + "::insert", "T5.writer", b.name, b.where(s["line"]), "used_slots written outside TranspositionTable::insert")
     ck.floor("T5", writers, 1, "writes to used_slots")
